@@ -172,6 +172,10 @@ class Case:
             for s, d in an_w.findings:
                 if s.split(":")[0] in dropped:
                     continue
+                if s.split(":")[0] in getattr(self, "info_only", ()):
+                    # not part of the statement for this input class (see exc_case): observed, not judged
+                    ctx.note("info:" + s.split(":")[0])
+                    continue
                 findings.append((s, d, lw.tag))
             lw.an, ll.an = an_w, an_l
             for k, v in an_w.stats.items():
@@ -440,6 +444,12 @@ def gen_exc(r):
     return dict(units=units, depth=depth, K=K, raise_unit=raise_unit, last_unit=last_unit, unit_of=unit_of)
 
 
+EH_TERM = '''    .section .eh_frame,"a",@progbits
+    .long 0
+    .section .note.GNU-stack,"",@progbits
+'''
+
+
 def exc_case(ctx, lim, i):
     r = rng("C10", ctx.seed, "exc", i)
     g = gen_exc(r)
@@ -500,6 +510,14 @@ def exc_case(ctx, lim, i):
         inputs += objs[n:] + [a, a]
     else:
         inputs += objs
+    has_term = False
+    if r.random() < 0.4:
+        # an object whose .eh_frame is only a zero terminator (like crtend.o's __FRAME_END__), but in the
+        # middle of the link: objects after it must still get correct FDEs and table entries
+        t = comp("ehterm", "s", EH_TERM, False)
+        inputs.insert(r.randint(1, len(inputs)), t)
+        ctx.note("mid-link-eh-frame-terminator")
+        has_term = True
     inputs.append(hexe)
     env, threads = wild_env(r)
     kargs = KARGS[kind] if kind != "shared" else (["-pie"] if pie else ["-no-pie"])
@@ -536,6 +554,10 @@ def exc_case(ctx, lim, i):
     if rw.timed_out:
         return ctx.inconclusive("watchdog fired")
     C = Case(ctx, lim, case, f"exception-chain program (depth {g['depth']}, {g['K']} units, {kn})")
+    if has_term:
+        # wild keeps an input's terminator where it stood (ld and lld drop it); the search table, which is what
+        # the statement is about, still covers the records behind it
+        C.info_only = ("eh-frame-records-after-terminator",)
     C.files = dict(srcs)
     C.files["c10_helper.c"] = HELPER
     C.files["repro.sh"] = ("# helper: gcc -c -O1 -DC10_TAG='\"exe\"' -DC10_ANCHOR=c10_anchor_exe c10_helper.c (+ -fPIC, tag lib for the library)\n"
